@@ -303,13 +303,13 @@ def standard_jobs(tier, job_fn, cyclic=False, light=False, no_w2=False, skip_tho
 
 
 # ----------------------------------------------------------------------------- what the back end is handed
-def handed_graphs_harness(ex):
+def handed_graphs_harness(ex, clauses=('full', 'hard')):
     """Scheduler.__init__ (symrun, one path per labelled graph): the configurations of the model checker are graphs of plain tasks, which is
     what the back end receives.  This job closes the gap for graphs that contain a NESTED dependency graph (possibly EMPTY) as a node: from
     hard / soft graphs over 3 plain tasks and one nested graph (0 or 1 inner task, at a solver-chosen place of the creation order, every
-    pair of nodes unrelated / hard / soft), the full graph handed to the back end orders two plain tasks exactly when the hard and soft edges
-    (an edge to / from a nested graph standing for all of its tasks, an empty one passing the constraint on) order them, the hard graph
-    exactly when the hard edges do, and both hold plain tasks only."""
+    pair of nodes unrelated / hard / soft), the full graph handed to the back end orders two plain tasks whenever the hard and soft edges
+    (an edge to / from a nested graph standing for all of its tasks, an empty one passing the constraint on) order them (what C01 needs), the hard graph
+    exactly when the hard edges do (what the skipping rule of C02 needs), and both hold plain tasks only."""
     from valjean.cosette.depgraph import DepGraph
     from valjean.cosette.scheduler import Scheduler
     from valjean.cosette.task import Task, TaskStatus
@@ -378,15 +378,22 @@ def handed_graphs_harness(ex):
             out |= {(a, b) for b in seen}
         return out, ns
     for name, graph, kinds in (('full', sc.full_graph, (1, 2)), ('hard', sc.hard_graph, (1,))):
+        if name not in clauses:
+            continue
         g_reach, g_nodes = got(graph)
         want, _ = expected(kinds)
         ok_nodes = len(g_nodes) == len(tasks) and all(any(n is t for t in tasks) for n in g_nodes)
         ex.check(ok_nodes, f'{name}-graph-handed-to-the-back-end-holds-exactly-the-plain-tasks')
-        if ok_nodes:
-            ex.check(g_reach == want, f'{name}-graph-handed-to-the-back-end-orders-two-tasks-exactly-when-the-given-edges-do')
+        if ok_nodes and name == 'full':
+            # what C01 needs: every ordering the given edges imply is there (more ordering only delays), and no task is ordered after itself
+            ex.check(want <= g_reach and not any(a is b for (a, b) in g_reach),
+                     'full-graph-handed-to-the-back-end-keeps-every-ordering-the-given-edges-imply')
+        if ok_nodes and name == 'hard':
+            # what C02 needs: skipping follows the hard relation, exactly
+            ex.check(g_reach == want, 'hard-graph-handed-to-the-back-end-orders-two-tasks-exactly-when-the-hard-edges-do')
 
 
-def _job_handed_graphs(timeout_ms=20000, seed=0, **_):
+def _job_handed_graphs(timeout_ms=20000, seed=0, clauses=('full', 'hard'), **_):
     from engine.runner import run_sym
-    return run_sym('x', handed_graphs_harness, timeout_ms=timeout_ms, seed=seed, max_paths=100000,
-                   require_checks=['full-graph-handed-to-the-back-end-orders-two-tasks-exactly-when-the-given-edges-do'])
+    return run_sym('x', lambda ex: handed_graphs_harness(ex, tuple(clauses)), timeout_ms=timeout_ms, seed=seed, max_paths=100000,
+                   require_checks=['full-graph-handed-to-the-back-end-keeps-every-ordering-the-given-edges-imply'])
